@@ -13,6 +13,8 @@ structure Msg where
   code : Nat := 0
   name : String := ""
   tag : String := ""
+  /-- the text starts with the `IMPORTANT!` placeholder (result.go:374-380) -/
+  important : Bool := false
   deriving DecidableEq, Repr, Inhabited
 
 /-- result.go:339-354 / 357-372: the `for _, e := range errors` loop of `AddErrors` /
